@@ -11,6 +11,9 @@
 #include "vc.h"
 #include <limits.h>
 #include "c18_hexascii_contracts.h"
+#ifdef REPLAY
+#include "igris/util/hexascii.c"      /* native runs call the real routines (under cbmc they are used through their contracts) */
+#endif
 
 void harness(void)
 {
